@@ -120,6 +120,46 @@ def main():
 
 
 NEEDS = {
+    'C01-7': 'inventory stored with allocation_ratio exactly 0.0 (capacity 0), then any positive allocation',
+    'C01-8': 'one POST /allocations or reshaper body that first clears a consumer holding allocations and later places for another consumer',
+    'C02-7': 'microversion 1.10-1.28, nested providers present, candidate served by a non-root provider alone',
+    'C02-8': 'inventory with allocation_ratio < 1 and reserved > 0, amount in the top reserved*(1-ratio) units of capacity',
+    'C03-7': 'group_policy=isolate, unsuffixed and suffixed group asking one class, amounts fit alone but not summed',
+    'C03-8': 'provider with the sharing trait but in no aggregate, satisfying a suffixed group',
+    'C04-7': 'microversion <= 1.11 list body naming one provider twice, for a consumer that does not exist yet',
+    'C04-8': 'allocation_conflict_retry_count=1 (or two providers, conflict on the second) and a racing provider write',
+    'C05-7': 'guarded write past its early check, then DELETE and POST of the provider under the same uuid, then the write transaction',
+    'C05-8': 'PUT aggregates (>= 1.19) whose transaction fails with a deadlock after the generation UPDATE, a same-generation write commits before the retry',
+    'C06-7': 'write carrying a generation HIGHER than the stored one (consumer cleared and re-created under the same uuid)',
+    'C06-8': 'POST/reshaper naming a new consumer and an existing one whose generation a racer bumps before the write',
+    'C07-7': 'a generation-bumping request commits exactly between the two provider reads of PUT inventories',
+    'C07-8': 'two claims by different consumers on one provider, the loser of the provider generation retried server-side',
+    'C08-7': 'provider with inventory of one class named in the request asked for another class it does not have',
+    'C08-8': 'inventory write for an unused custom class preempted right before its write transaction by DELETE of that class',
+    'C09-7': 'GET /resource_providers?in_tree=<non-root provider>',
+    'C09-8': 'PUT moving / detaching an already parented provider at microversion exactly 1.36',
+    'C10-7': 'GET /resource_providers listing of a nested provider whose generation differs from its root',
+    'C10-8': 'POST /allocations or reshaper naming a new consumer whose uuid is not lower case',
+    'C11-7': 'PUT allocations for an existing consumer naming another project/user/type that fails inside the write (409 over capacity)',
+    'C11-8': 'GET /traits with both name= and associated= when a name-matching trait has the opposite association status',
+    'C12-7': 'consumer typed at >= 1.38, then any successful write below 1.38',
+    'C12-8': 'DELETE allocations preempted after its read by a PUT replacing the consumer allocations (fresh row ids)',
+    'C13-7': 'provider in an aggregate stored in upper-case / undashed spelling, member_of naming that same string',
+    'C13-8': 'name filter on a nested tree',
+    'C14-7': 'GET provider aggregates at >= 1.19 for a provider still at generation 0',
+    'C14-8': 'microversion 1.10-1.28 and a candidate spanning two providers of one tree that was dropped',
+    'C15-7': 'GET /allocation_candidates at exactly 1.25 or 1.26 with numbered groups only',
+    'C15-8': 'inventory written with step_size 0, then an allocation against it',
+    'C16-7': 'header-less admin request followed, in the same process, by a header-less role-less caller',
+    'C16-8': 'policy file override removed by an edit while the service keeps running',
+    'C17-7': 'PUT that re-parents a provider with descendants + any database fault at the final descendant UPDATE',
+    'C17-8': 'inventory write updating an existing class + fault exactly at the usage SELECT (deadlock with rollback)',
+    'C18-7': 'PUT / DELETE inventories dropping a class; process dies between the two commits',
+    'C18-8': 'DELETE provider; process dies between the two commits',
+    'C19-7': 'sync_on_startup=True with a database already at alembic head but not (fully) synchronised',
+    'C19-8': 'standard trait attached to a provider, then DELETE /traits/<it>',
+    'C20-7': 'microversion 1.10-1.28, nested providers, a child alone satisfying the request',
+    'C20-8': 'randomisation off, >= 2 candidates, the same request issued twice',
     'C01-5': 'PUT/POST for a not-yet-existing consumer whose first attempt is retried server-side after a racing write bumped the provider (two cooperating edits)',
     'C01-6': 'old microversion (< 1.28): allocate, shrink the inventory / change step_size, re-PUT the identical allocations',
     'C02-5': 'candidate for a string-suffixed group (>= 1.34) sent back unchanged including its mappings',
